@@ -390,7 +390,7 @@ Proof.
   rewrite (dloop_complete _ _ Hes (S (length body)) [] (rev x) (nlen x) cap Bb Hx);
     [|apply nlen_rev|assumption|lia].
   cbn [bind fst snd is_nil]. rewrite nlen_rev, N.eqb_refl. cbn [negb orb].
-  rewrite rev_involutive. reflexivity.
+  rewrite frev_rev, rev_involutive. reflexivity.
 Qed.
 
 (** Whatever the decompressor accepts is a valid block, and the bytes returned are the denoted ones. *)
@@ -405,7 +405,7 @@ Proof.
   destruct (dloop true (S (length r)) r [] ulen cap) as [[rest' rout']|c|f] eqn:ED; try discriminate.
   cbn [bind fst snd]. destruct (nlen rout' =? ulen) eqn:EL; cbn [negb orb]; [|discriminate].
   destruct rest' as [|a t]; cbn [is_nil negb]; [|discriminate].
-  intros H; injection H as <-.
+  rewrite frev_rev. intros H; injection H as <-.
   assert (H0 : nlen (@nil N) <= ulen) by (rewrite nlen_nil; lia).
   assert (H2 : ulen <= cap) by lia.
   destruct (dloop_sound _ _ _ _ _ _ _ Br H0 H2 ED) as (es & pre' & -> & Hes & Hx).
